@@ -231,6 +231,15 @@ func (c *Cluster) restartFromDisk(n *SimNode) {
 	delete(c.dag.harvest, n.idx)
 	nviol := len(c.violations)
 	c.checkRecovery(n, n, prevEpoch, n.knownAtCrash, nil)
+	if (c.cfg.Profile == "C07" || c.cfg.Profile == "C08") && !n.wipeExpected {
+		// in the hostile-input profiles a recovery failure is a consequence of the inputs
+		for _, v := range c.violations[nviol:] {
+			if v.Property == "C11" {
+				v.Property = c.cfg.Profile
+				v.Key = "recovery-broken-after-hostile-input:" + v.Key
+			}
+		}
+	}
 	if n.wipeExpected {
 		for _, v := range c.violations[nviol:] {
 			if v.Property == "C11" {
